@@ -11,7 +11,7 @@ export -f one
 {
   # (seeded/<id>/sweep_check, if present, names the check to run instead of the property's own: C09-8 is seen by
   #  C09's thorough tier only and by the quick tier of C05, which owns the broken fan-out)
-  for d in seeded/*/; do id=$(basename $d); chk=${id%%-*}; [ -f $d/sweep_check ] && chk=$(cat $d/sweep_check); echo "$id /verif/$d/patch.diff $chk"; done
+  for d in seeded/*/; do [ -f $d/retired ] && continue; id=$(basename $d); chk=${id%%-*}; [ -f $d/sweep_check ] && chk=$(cat $d/sweep_check); echo "$id /verif/$d/patch.diff $chk"; done
   while read f id; do [ -n "$f" ] && echo "mutant:$f /verif/mutants/$f $id"; done <<'LIST'
 c15_shared_scratch_slice.diff C15
 c01_accept_nil_zero_entry.diff C01
@@ -29,5 +29,6 @@ c11_monitor_close_does_not_close_subscription.diff C11
 c09_ingresspods_leaks_intermediate_join.diff C09
 c20_typed_monitor_passes_nil_for_foreign.diff C20
 c19_rc_no_template_fallback.diff C19
+c03_stale_retry_after_reset.diff C03
 LIST
 } | xargs -P ${SWEEP_JOBS:-4} -L 1 bash -c 'one "$0" "$1" "$2"' | sort
